@@ -809,6 +809,34 @@ pub fn run(tier: Tier) -> i32 {
             extra: vec![],
         });
     }
+    // the library's writers and readers on plain streams (writers that take a few bytes per call and
+    // implement only write / flush, a writer that is full, buffered readers of small capacities)
+    {
+        let spectra: Vec<RefArray> = vec![RefArray::from_fn(&[3], |f, _| f as f64 - 1.0), RefArray::from_fn(&[2, 3], |f, _| f as f64 * 0.5), RefArray::from_fn(&[1, 1, 4], |f, _| f as f64), RefArray::from_fn(&[33, 33], |f, _| (f % 13) as f64)];
+        let mut n = 0u64;
+        for x in &spectra {
+            for precision in [0usize, 6] {
+                n += 1;
+                let scs = crate::subject::scs_from_ref(x);
+                let r = crate::verdict::catch(|| crate::subject::io_through_plain_streams(&scs, precision));
+                let problem = match r {
+                    Ok(p) => p,
+                    Err(p) => Some(format!("panic: {p}")),
+                };
+                if let Some(why) = problem {
+                    rep.violation("C15|lib|plain-streams".to_string(), format!("spectrum of shape {:?} at precision {precision}: {why}", x.shape), J::obj([("kind", J::s("plain-streams")), ("shape", J::usizes(&x.shape))]));
+                }
+            }
+        }
+        rep.part(Part {
+            name: "lib: npy writer and reader on plain streams".into(),
+            evaluations: n,
+            nontrivial: n,
+            note: "each spectrum in text and npy through writers accepting 1 / 7 / 64 bytes per call (only write and flush implemented): the bytes a Vec receives; into a writer that is full (Ok(0)) after 0, 1, half, all but one byte: not a success; the npy bytes read back through buffered readers of capacity 1, 3, 7, 8, 12, 20, 100, 127, 129".into(),
+            exhaustive: true,
+            extra: vec![],
+        });
+    }
     let res = par_map(4, |i| check_writer_cli_newline_bytes(i, &scratch));
     for v in res.into_iter().flatten() {
         rep.violation(v.0, v.1, v.2);
